@@ -38,7 +38,8 @@ theorem nodeTree_erase (z : Bool) : ∀ n : Node, eraseKids (nodeTree z n) = nod
   | .assign _ k v => by simp [nodeTree, nodeEntry, eraseKids, Tree.erase]
   | .block _ k cs => by
     simp [nodeTree, nodeEntry, eraseKids, Tree.erase, eraseKids_dictOf, nodeTrees_erase z cs]
-  | .sect _ _ _ _ => by simp [nodeTree, nodeEntry, eraseKids]
+  | .sect _ _ k cs => by
+    simp [nodeTree, nodeEntry, eraseKids, Tree.erase, eraseKids_dictOf, nodeTrees_erase z cs]
   | .comment _ _ => by simp [nodeTree, nodeEntry, eraseKids]
 theorem nodeTrees_erase (z : Bool) : ∀ ns : List Node, eraseKids (nodeTrees z ns) = nodeEntries z ns
   | [] => by simp [nodeTrees, nodeEntries, eraseKids]
